@@ -409,3 +409,10 @@ for (_p, _n), _spec in list(HARNESSES.items()):
                                                                                _n in ('Module.sensitivity[1x1]', 'Module.sensitivity[2x2]', 'Module.sensitivity[1x2]')))
             or (_p == 'C06' and _n == 'LDAWrapper.update.clears')):
         HARNESSES[(P, f'protocol.{_n}')] = dict(_spec)
+
+# the shift-invert factorisation cached by EigenSolve (refreshed in every response, also when the same matrix objects come back updated in place):
+# the C11 two-call harnesses on the symmetric classes, regenerated under this property
+from . import C11 as _c11   # noqa: E402,F401
+for (_p, _n), _spec in list(HARNESSES.items()):
+    if _p == 'C11' and _n.startswith('EigenSolve.sparse') and 'A=sym' in _n:
+        HARNESSES[(P, f'cache.{_n}')] = dict(_spec)
